@@ -44,14 +44,21 @@ def rule_cb1(A: Analysis, rep):
     core = [frozenset(a for a in c if a[0] in skip_atoms) for c in gs]
     ok = bool(gs) and all(c == frozenset({("t(%s.is_dir())" % ddir, True), ("t(any((True for _v0 in %s.iterdir())))" % ddir, True)}) for c in core)
     r = g.reach([be], removed=[ln], skip_labels=is_exc)
-    ends = [n for n in r if any(m is hdr and is_back(lb) for m, lb in n.succ)]
-    conts = [n for n in ends if isinstance(n.ast, ast.Continue)]
-    ok2 = all(isinstance(n.ast, ast.Continue) for n in ends) and len(conts) == 1
-    if ok2:
-        gc_ = A.path_guards(g, be, conts[0], fi)
-        a1, a2 = "t(%s.is_dir())" % ddir, "t(any((True for _v0 in %s.iterdir())))" % ddir
-        forms = [[frozenset({(a1, False)}), frozenset({(a1, True), (a2, False)})], [frozenset({(a1, False)}), frozenset({(a2, False)})]]
-        ok2 = any(sorted(map(sorted, gc_)) == sorted(map(sorted, f)) for f in forms)
+    # the iterations that end without creating the link: the union of the guards of every back edge reached around it
+    from ..analysis import _and_all, _simplify
+    from ..cfg import branch_of
+    gc_ = []
+    for n in r:
+        for (m, lb) in n.succ:
+            if m is hdr and is_back(lb):
+                gn = A.path_guards(g, be, n, fi) if n is not be else [frozenset()]
+                if n.kind == "test" and branch_of(lb):
+                    gn = _and_all([gn, A.dnf(n.ast, branch_of(lb) == "T", fi)])
+                gc_.extend(gn)
+    a1, a2 = "t(%s.is_dir())" % ddir, "t(any((True for _v0 in %s.iterdir())))" % ddir
+    gc_ = _simplify([frozenset(x for x in c if x[0] in (a1, a2)) for c in gc_])
+    forms = [[frozenset({(a1, False)}), frozenset({(a1, True), (a2, False)})], [frozenset({(a1, False)}), frozenset({(a2, False)})]]
+    ok2 = any(sorted(map(sorted, gc_)) == sorted(map(sorted, f)) for f in forms)
     rep.check(ok and ok2, "CB1", "only missing/empty dependency outputs are skipped", l, "", "a dependency can be skipped for another reason: link guard [%s]" % " | ".join(fmt_conj(c) for c in gs))
     # existing entry: unlinked only if it is a symlink, otherwise an error, before any modification
     un = [n for n in g.nodes if n.kind == "stmt" and norm(n.ast) == "%s.unlink()" % entry]
